@@ -131,6 +131,20 @@ def decode_case(cid: str, tmpl, x: list, with_objs: bool, rng: random.Random) ->
                             "v2": f64(float(Hardness(max_fes=24, n_runs=2).evaluate(y)))})
         rec["objs"].append({"name": "hardness-history", "v": f64(vb),
                             "v2": f64(float(Hardness(max_fes=24, n_runs=2).evaluate(yb)))})
+        # ... and across a change of NAME: generated instance (name of the template + suffix), template, template
+        # again; and template, generated, generated - the second evaluation of a name must equal a fresh object's
+        hn = Hardness(max_fes=24, n_runs=2)
+        hn.evaluate(y)
+        hn.evaluate(tmpl)
+        vt = float(hn.evaluate(tmpl))
+        rec["objs"].append({"name": "hardness-history", "v": f64(vt), "order": "generated, template, template",
+                            "v2": f64(float(Hardness(max_fes=24, n_runs=2).evaluate(tmpl)))})
+        hn = Hardness(max_fes=24, n_runs=2)
+        hn.evaluate(tmpl)
+        hn.evaluate(y)
+        vg = float(hn.evaluate(y))
+        rec["objs"].append({"name": "hardness-history", "v": f64(vg), "order": "template, generated, generated",
+                            "v2": f64(float(Hardness(max_fes=24, n_runs=2).evaluate(y)))})
         # the executors may be handed over as any iterable (the parameter is declared Iterable): a one-shot iterator
         # must not make the second evaluation differ from the first
         from moptipyapps.binpacking2d.instgen.hardness import DEFAULT_EXECUTORS
